@@ -188,10 +188,38 @@ func runWorker(v Variant, prop, tier string, seed uint64, from, to int, deadline
 	}
 	cur := -1
 	finished := true
+	// watchdog: a worker that prints nothing for 5 minutes is killed (exit 2, never a violation)
+	lastOut := time.Now()
+	var lmu sync.Mutex
+	wdone := make(chan struct{})
+	watchdogFired := false
+	go func() {
+		tk := time.NewTicker(5 * time.Second)
+		defer tk.Stop()
+		for {
+			select {
+			case <-wdone:
+				return
+			case <-tk.C:
+				lmu.Lock()
+				idle := time.Since(lastOut)
+				lmu.Unlock()
+				if idle > 5*time.Minute {
+					watchdogFired = true
+					cmd.Process.Kill()
+					return
+				}
+			}
+		}
+	}()
+	defer close(wdone)
 	sc := bufio.NewScanner(stdout)
 	sc.Buffer(make([]byte, 1<<20), 1<<28)
 	for sc.Scan() {
 		var rr RunResult
+		lmu.Lock()
+		lastOut = time.Now()
+		lmu.Unlock()
 		if err := json.Unmarshal(sc.Bytes(), &rr); err != nil {
 			continue
 		}
@@ -204,6 +232,10 @@ func runWorker(v Variant, prop, tier string, seed uint64, from, to int, deadline
 		onResult(&rr)
 	}
 	err = cmd.Wait()
+	if watchdogFired {
+		onCrash(cur, "WATCHDOG: the worker made no progress for 5 minutes and was killed", -4)
+		return
+	}
 	if !finished {
 		code := -1
 		if ee, ok := err.(*exec.ExitError); ok {
